@@ -53,6 +53,7 @@ def instances(tier, seed):
     for ti, si in forced + pairs[:npairs]:
         for form in FORMS:
             out.append(("core", dict(kind="algebra", t=ti, s=si, form=form, bind_s=True)))
+    out.append(("core", dict(kind="bindrollback")))
     for ti in cand[:8]:
         for form in ("S T", "T ...", "... S T"):
             out.append(("core", dict(kind="algebra", t=ti, s=0, form=form.replace("T", "U") if form == "T ..." else form, bind_s=False)))
@@ -198,6 +199,25 @@ def scenario(inst, V):
         elif ref == "VE":
             V.check("string-rejected", outcome == "ValueError", outcome=outcome)
         return dict(outcome=outcome, ref=ref)
+    if kind == "bindrollback":
+        # T must stay bound when a rollback happens *inside* the check that binds it
+        # (inner union member failing after partial progress)
+        from typing import Union
+        from env.fakes import FakeArr
+        k = V.choose("inner", 2)
+        leaf = Union[jt.Float[FakeArr, "a 1"], jt.Float[FakeArr, "a 2"]]
+        ann = PyTree[PyTree[leaf], "T"] if k else PyTree[leaf, "T"]
+        x = FakeArr((3, 2))
+        with jaxtyped("context"):
+            g1 = c08.observe((x,), ann)
+            bound = sorted(base.bindings()["pytree"])
+            g2 = c08.observe((x, x), ann)
+            g3 = c08.observe((x,), ann)
+        # with the nested form the whole tree is one leaf of the outer PyTree (structure '*')
+        want = ("ACC", "ACC", "ACC") if k else ("ACC", "REJ", "ACC")
+        V.check("algebra-verdict", (g1, g2, g3) == want and bound == ["T"], got=(g1, g2, g3), bound=bound,
+                what="structure name bound on first use survives an inner rollback")
+        return dict(got=[g1, g2, g3], bound=bound)
     # ---- algebra
     t, s_ = TREES[inst["t"]], TREES[inst["s"]]
     form = inst["form"]
